@@ -1,0 +1,14 @@
+//go:build verif
+
+// Contracts for the acv verifier (/verif). Comment-only file: no executable code.
+
+package mysql
+
+// Wiring (C15): same registration order as in the PostgreSQL proxy factory.
+//@ func (factory *proxyFactory) New(clientID []byte, clientSession base.ClientSession) (proxy base.Proxy, err error)
+//@   props C15
+//@   noinline *
+//@   ensures decryptor-registered-last: err == nil ==> called(EnvelopeDetector.AddCallback#1)
+//@   at call EnvelopeDetector.AddCallback#0 : assert typeis(arg[0], crypto.PoisonRecordDetector) && !called(EnvelopeDetector.AddCallback#1)
+//@   at call EnvelopeDetector.AddCallback#1 : assert typeis(arg[0], crypto.DecryptHandler) && (called(EnvelopeDetector.AddCallback#0) || !(ret(ProxySetting.PoisonRecordCallbackStorage#0)[0] != nil && ret(PoisonRecordCallbackStorage.HasCallbacks)[0]))
+//@   at call crypto.NewPoisonRecordsRecognizer : assert ret(PoisonRecordCallbackStorage.HasCallbacks)[0]
